@@ -13,6 +13,7 @@ Decided:
      do_save and restored by do_fetch through same-named storage fields;
   R6 a present but unreadable account file is an error (never `no account`), a fresh identity is created only when no
      file exists, and the error reaches process::exit(1).
+  W1: wire shape of the account requests and of the account file, and what is accepted when they are read back (props/wire_shape.py).
 """
 from ..flow import arg_origins, origins
 from ..mir import CallSite, op_const, op_local, try_edges
@@ -22,7 +23,8 @@ from ..util import (POLL, assigns_const_to, effective_callers, flag_switches, ag
 LEVEL = "other"
 TECHNIQUE = ("who-may-call + path conditions for register_account, must-pass-through ordering in Account::synchronize "
              "(flag-sensitive), must-follow of fingerprint refresh + save on success paths, append-only rule for past_keys, "
-             "field coverage / same-name pairing between Account structs and their storage structs, error-edge rules on load")
+             "field coverage / same-name pairing between Account structs and their storage structs, error-edge rules on load"
+             '; derived-serde shape tables of the account requests and the account file')
 LEVEL_TEXT = ("Decides for all histories the per-step structure that keeps the CA's record and the stored state in line: when "
               "registration may happen, that a key roll-over precedes anything signed with the new key, that every success "
               "path refreshes fingerprints and saves, that superseded keys are never discarded, that all state round-trips "
